@@ -548,11 +548,16 @@ def run_api_case(L: ApiLayout, case: dict) -> list[dict]:
         # step()
         dirlike = any(_is_dirlike(L, case, p, wd_abs) for p in paths)
         exc = None
+        info = None
         try:
-            api.step("true", inp=inp, out=out, vol=vol, workdir=wd)
+            info = api.step("true", inp=inp, out=out, vol=vol, workdir=wd)
         except Exception as e:  # noqa: BLE001
             exc = e
         define_step_groups("step", tr(inp), tr(out), tr(vol), tr([wd]), exc, dirlike)
+        if info is not None and not wd.startswith("/"):
+            # the step information handed back: `workdir` designates, from the caller's directory, the directory the
+            # caller named (the other fields are relative to that directory)
+            add("step.info.workdir", "echo", "cwd", True, [(wd, "echo")], [str(info.workdir)])
         # one wrapper that goes through step()
         client.calls.clear()
         w, exe = case["wrapper"], case["exe"]
@@ -814,7 +819,7 @@ def check_api_case(L: ApiLayout, case: dict) -> list[tuple[str, str, object, obj
                 bad.append((f"api-{scope}-wrong-file",
                             f"{scope}: a path handed back to the step designates another file than the one given",
                             {"given": [i[0] for i in g["items"]], "observed": g["got"], "designate": are}, meant))
-            else:
+            elif scope == "static.return":
                 slash = [rec for rec in g["got"] if rec.endswith("/") != os.path.isdir(loc(cwd_abs, rec))]
                 if slash:
                     bad.append((f"api-{scope}-label-not-canonical",
